@@ -2,7 +2,7 @@
    sumbool, sumor map to OCaml natives; N, positive, nat stay the extracted datatypes). *)
 From Coq Require Extraction ExtrOcamlBasic.
 From EC Require Import Base Model.Utf8 Model.Input Spec.Utf8Spec Spec.KeyUnits Model.Utils Model.Editor Model.Token Model.Args Model.History Model.Sink Model.Writer Model.Cli Model.Handler Model.Derive
-  Spec.QuoteSpec Spec.Framing Spec.Terminal Spec.IdealEditor Spec.HistSpec Spec.ArgSpec Spec.CompletionSpec.
+  Spec.QuoteSpec Spec.Framing Spec.Terminal Spec.IdealEditor Spec.HistSpec Spec.ArgSpec Spec.CompletionSpec Spec.Session.
 Extraction Language OCaml.
 Extraction "model.ml" Utf8.run Input.runa Input.ig0 Utf8.acc0 Utf8Spec.validb Utf8Spec.wf_charb
   KeyUnits.bytes_of KeyUnits.events_of KeyUnits.wf_unitb KeyUnits.greedyb
@@ -19,4 +19,5 @@ Extraction "model.ml" Utf8.run Input.runa Input.ig0 Utf8.acc0 Utf8Spec.validb Ut
   IdealEditor.ideal_step IdealEditor.ideal0 IdealEditor.ibytes
   HistSpec.hs_push HistSpec.hs_older HistSpec.hs_newer HistSpec.hspec0
   ArgSpec.classify_all ArgSpec.chars_of CompletionSpec.complete_spec
-  Derive.cmdset_of Derive.parse_set Derive.conv.
+  Derive.cmdset_of Derive.parse_set Derive.conv
+  Session.astate0 Session.astep Input.accept.
